@@ -120,7 +120,7 @@ func checkC04(c *Ctx) {
 		c04Honoured(c, bi, tname, map[string]*ssa.Function{"Content": co, "PartialContent": pc, "JustAttributes": ja})
 	}
 	c.Floor("hidden.filter insertions", nFilter, 7, "filtered insertions in hclsyntax.Body, json.body and dynblock.expandBody")
-	appendSharedRule(c, "append.shared", "hcl", "hclsyntax", "json", "ext/dynblock", "hcldec")
+	appendSharedRule(c, "append.shared", c.Scope("hcl", "hclsyntax", "json", "ext/dynblock", "hcldec")...)
 	c04MergedRequired(c)
 	c04CopyIntoEmpty(c)
 	c04DeadFieldStore(c)
